@@ -34,6 +34,8 @@ TWO = {"cnot": vanilla.CnotInstruction, "cphase": vanilla.CphaseInstruction, "mo
 
 
 Rr = lambda i: Register(RegisterName.R, i)
+from netqasm.lang.instr.flavour import NVFlavour as _NVF  # noqa: E402
+KEPT_NV = _NVF()
 
 
 def transpile_gate(mn: str, ids: List[int], imm: Optional[List[int]], debug=False, unknown=False):
@@ -55,6 +57,18 @@ def transpile_gate(mn: str, ids: List[int], imm: Optional[List[int]], debug=Fals
         instrs.append(TWO[mn](reg0=Q(0), reg1=Q(1)))
     sub = Subroutine(instructions=instrs, app_id=0)
     out = NVSubroutineTranspiler(sub, debug=debug).transpile()
+    if not debug and (len(ids) == 2 or (imm or [0])[0] % 3 == 0):
+        # what the controller sees: the bytes, decoded with an NV flavour object that has been alive since the check started
+        # (as a controller keeps one), after other flavour objects were created in the process
+        from netqasm.lang.instr.flavour import VanillaFlavour
+        from netqasm.lang.parsing import deserialize
+        VanillaFlavour()
+        try:
+            raw = bytes(out)
+        except ValueError:
+            raw = None        # (a numerator scaled beyond 8 bits: the encoder refuses it, which is C16's business, not a wrong unitary)
+        if raw is not None:
+            out = deserialize(raw, flavour=KEPT_NV)
     return resolve(out.instructions)
 
 
